@@ -81,3 +81,33 @@ Definition compiled_ok (p : cprob) (d : add) (locs : list (list loc)) : bool :=
                                  (if row_present (nth r (p_rows p) []) xp then 1 else 0))
                (seq 0 (length (p_rows p))))
      (bmasks (p_units p)).
+
+(* ---- a complete validator of a compiled diagram: everything Proofs/OracleExact.v asks of it, as one boolean ---- *)
+Definition eqb_natlist (a b : list nat) : bool := Nat.eqb (length a) (length b) && forallb (fun q => Nat.eqb (fst q) (snd q)) (combine a b).
+Definition eqb_atype (a b : atype) : bool :=
+  eqb_natlist (a_max a) (a_max b)
+  && match a_tally a, a_tally b with
+     | Some (k, c), Some (k', c') => Nat.eqb k k' && Nat.eqb c c'
+     | None, None => true
+     | _, _ => false
+     end.
+Definition wt_b (t : atype) (x : aval) : bool := match x with Some v => Nat.eqb (length v) (length (a_max t)) | None => true end.
+Fixpoint good_b (t : atype) (w : nat) (lvls : list (list node)) (j : nat) : bool :=
+  match lvls with
+  | [] => Nat.ltb j w
+  | l :: rest => Nat.ltb j (length l) && n_live (getnode t l j)
+                 && good_b t w rest (n_c0 (getnode t l j)) && good_b t w rest (n_c1 (getnode t l j))
+  end.
+Fixpoint nodup_b (l : list nat) : bool :=
+  match l with [] => true | a :: r => negb (existsb (Nat.eqb a) r) && nodup_b r end.
+Definition valid_compiled (p : cprob) (d : add) (locs : list (list loc)) : bool :=
+  let t := d_type d in let n := p_units p in
+  eqb_atype t (p_type p)
+  && forallb (forallb (fun nd => wt_b t (n_a0 nd) && wt_b t (n_a1 nd))) (d_levels d)
+  && forallb (fun l => Nat.eqb (length l) (diameter d)) (d_levels d)
+  && good_b t (diameter d) (d_levels d) (d_root d)
+  && forallb (forallb (fun nd => a_eqb (n_a0 nd) (a_zero t) && a_eqb (n_a1 nd) (a_zero t))) (d_levels d)
+  && forallb (fun k => Nat.ltb k n) (map (level_of d) (seq 0 n)) && nodup_b (map (level_of d) (seq 0 n))
+  && Nat.eqb (length (d_levels d)) n
+  && forallb (forallb (fun u => Nat.ltb u n)) (p_rows p)
+  && compiled_ok p d locs.
